@@ -27,6 +27,8 @@ type hstate struct {
 	database   *db.DB
 	chain      *blockchain.Chain
 	flushEvery bool
+	genesis    *blockchain.Block
+	cfg        *blockchain.ChainConfig
 	applied    []*blockchain.Block // shadow stack of successfully applied blocks (genesis first)
 	lastDel    *blockchain.Block   // most recently deleted block and its events (generator: re-apply corner)
 	lastDelE   []*blockchain.Event
@@ -47,6 +49,28 @@ func (h *hstate) tip() *c05x.TipObs {
 		return o
 	}
 	return nil
+}
+
+// restart replaces the Chain by a fresh one over the same database: Init + PrepareCache, as Executer.Init does at start.
+func (h *hstate) restart() *c05x.RestartStep {
+	s := &c05x.RestartStep{Op: "restart", Pre: c05x.Dump(h.database)}
+	func() {
+		defer func() {
+			if r := recover(); r != nil {
+				s.Panic = "PrepareCache"
+			}
+		}()
+		cfg := *h.cfg
+		chain := blockchain.NewChain(&cfg)
+		chain.Init(h.genesis, h.database)
+		if err := chain.PrepareCache(); err != nil {
+			s.Err = c05x.Classify(err)
+			return
+		}
+		h.chain = chain
+	}()
+	s.Post, s.TipAfter = c05x.Dump(h.database), h.tip()
+	return s
 }
 
 // flushDiff forces a memtable flush and answers the keys that read differently afterwards.
@@ -230,7 +254,7 @@ func runHist(r *hx.Rng, in *c05x.HistIn) (rec c05x.HistRec) {
 			rec.MaxCache = c05x.Pick(r, 1, 2, 3)
 		}
 		if scripted {
-			rec.Scripted, rec.Drain, rec.FlushEvery, rec.MaxCache = true, true, true, 2
+			rec.Scripted, rec.Drain, rec.FlushEvery, rec.MaxCache = true, true, true, 3
 		}
 		for i, n := 0, r.Intn(5); i < n; i++ {
 			rec.Prestate = append(rec.Prestate, c05x.KV{c05x.Hex(bytes.Join(c05x.StatePrefix, c05x.SmallKey(r))), c05x.Hex(r.Bytes(r.Intn(4)))})
@@ -254,7 +278,8 @@ func runHist(r *hx.Rng, in *c05x.HistIn) (rec c05x.HistRec) {
 	genesis, err := blockchain.NewBlock(c05x.Unhex(rec.Genesis))
 	c05x.Must(err)
 	g := genesis.Header.Height
-	chain := blockchain.NewChain(&blockchain.ChainConfig{ChainID: []byte{0, 0, 0, 0}, MaxTransactionsLength: 15360, MaxBlockCache: rec.MaxCache, KeepEventsForHeights: rec.Keep})
+	cfg := &blockchain.ChainConfig{ChainID: []byte{0, 0, 0, 0}, MaxTransactionsLength: 15360, MaxBlockCache: rec.MaxCache, KeepEventsForHeights: rec.Keep}
+	chain := blockchain.NewChain(cfg)
 	chain.Init(genesis, database)
 	batch := database.NewBatch()
 	if rec.GenesisDiff {
@@ -262,10 +287,10 @@ func runHist(r *hx.Rng, in *c05x.HistIn) (rec c05x.HistRec) {
 	}
 	c05x.Must(chain.AddBlock(batch, genesis, nil, g, false))
 	h := &hstate{database: database, chain: chain, applied: []*blockchain.Block{genesis}, events: map[string][]*blockchain.Event{},
-		flushEvery: rec.FlushEvery}
+		flushEvery: rec.FlushEvery, genesis: genesis, cfg: cfg}
 	if gen {
 		// drain: blocks with transactions (and assets), then more consecutive deletes than the block cache holds
-		drainApply, drainDelete := 0, 0
+		drainApply, drainDelete, restarted := 0, 0, false
 		if rec.Drain {
 			drainApply = rec.MaxCache + 2 + r.Intn(3)
 			drainDelete = drainApply
@@ -282,6 +307,15 @@ func runHist(r *hx.Rng, in *c05x.HistIn) (rec c05x.HistRec) {
 			} else if drainDelete > 0 && tip.Header.Height > g {
 				wantDelete = true
 				drainDelete--
+			}
+			// a restart (PrepareCache) right before a run of deletes: always between the applies and the deletes of a drain,
+			// sometimes elsewhere; the deletes then work on blocks PrepareCache loaded
+			if wantDelete && !restarted && ((rec.Drain && drainApply == 0 && (scripted || r.Intn(2) == 0)) || (!rec.Drain && r.Intn(5) == 0)) {
+				rec.Steps = append(rec.Steps, h.restart())
+				restarted = true
+			}
+			if !wantDelete {
+				restarted = false
 			}
 			if wantDelete {
 				s := &c05x.DeleteStep{SaveTemp: r.Bool(), Enforce: r.Intn(100) < 88}
@@ -308,6 +342,10 @@ func runHist(r *hx.Rng, in *c05x.HistIn) (rec c05x.HistRec) {
 					txs, s.DupTx = append(txs, stored[r.Intn(len(stored))]), true
 				}
 				block, events = c05x.GenBlock(r, height, tip.Header.ID, txs, false), c05x.GenEvents(r, height)
+				if rec.Drain && len(block.Assets) == 0 { // drained blocks carry transactions AND assets
+					block.Assets = append(block.Assets, &blockchain.BlockAsset{Module: "drain", Data: r.Bytes(3)})
+					block.Init()
+				}
 			}
 			s.Staged = c05x.GenStaged(r, database)
 			if cur := h.fh(); cur != nil {
@@ -332,6 +370,10 @@ func runHist(r *hx.Rng, in *c05x.HistIn) (rec c05x.HistRec) {
 				Op string `json:"op"`
 			}
 			c05x.Must(json.Unmarshal(raw, &op))
+			if op.Op == "restart" {
+				rec.Steps = append(rec.Steps, h.restart())
+				continue
+			}
 			if op.Op == "delete" {
 				s := &c05x.DeleteStep{}
 				c05x.Must(json.Unmarshal(raw, s))
